@@ -305,6 +305,9 @@ def cases(rng, tier, shard, nshards):
         if (i_cfg + shard) % 2 == 0:
             yield dict(kind='history', ops=[['construct', i_cfg, int(rng.integers(0, 4))], ['copy_object', i_cfg, int((i_cfg // 2) % 3 == 2)],
                                             ['call', i_cfg, 0], ['call', i_cfg, 1]])
+    for i_cfg in range(NPOOL):
+        if (i_cfg + shard) % 2 == 1 and pool[i_cfg].get('cls', 'Derivative') == 'Derivative' and pool[i_cfg]['step']['kind'] in ('default', 'scalar'):
+            yield dict(kind='history', ops=[['step_setter', i_cfg], ['call', i_cfg, 1], ['step_setter', i_cfg]])
     for i in range(BUDGET[tier] // nshards):
         ops = []
         for _ in range(int(rng.integers(4, 13))):
@@ -320,8 +323,10 @@ def cases(rng, tier, shard, nshards):
                 ops.append(['mutate_restore', i_cfg, int(rng.integers(0, 3))])
             elif u < 0.77:
                 ops.append(['share', 2 * int(rng.integers(0, 6))])
-            elif u < 0.85:
+            elif u < 0.835:
                 ops.append(['clear_cache'])
+            elif u < 0.85:
+                ops.append(['step_setter', i_cfg])
             elif u < 0.88:
                 ops.append(['prepopulate', [int(v) for v in rng.integers(0, NPOOL, size=3)]])
             elif u < 0.96:
@@ -550,6 +555,30 @@ def run_case(case, ctx):
                                    detail=dict(where='nested_use_of_a_shared_generator', step=nst, n_inner=n_in, n_outer=n_out,
                                                extra=dict(ops=case['ops'])), where='nested_use_of_a_shared_generator')
                         return
+            elif name == 'step_setter':
+                # a bare numeric step is assigned through the `step` property of *another* object; then this configuration's own step
+                # (None or its number) is assigned bare to a new object of it: the same result as when it is given to the constructor
+                i = op[1]
+                cfg = pool[i]
+                if cfg.get('cls', 'Derivative') != 'Derivative' or cfg['step']['kind'] not in ('default', 'scalar'):
+                    continue
+                try:
+                    other_ = nd.Derivative(FUNS[cfg['fun']])
+                    other_.step = 0.0123
+                    with np.errstate(all='ignore'):
+                        other_(0.4)
+                except Exception:
+                    pass
+                d = build(nd, cfg)
+                d.step = build_step(nd, cfg['step'])
+                objs[i] = d
+                ctx.count('step_assigned_through_the_setter')
+                for k in (0, 1):
+                    got = call(d, cfg['points'][k])
+                    ctx.count('history_calls_compared')
+                    if not _compare(ctx, 'after_step_was_assigned_through_the_setter', i, k, got, extra=dict(ops=case['ops'])):
+                        return
+                    last_point[i], last_result[i] = k, got
             elif name == 'inplace_update':
                 # the caller keeps one array object, evaluates at it, updates it in place and evaluates again (an optimisation
                 # loop): the second result is that of the new point, whatever the object remembers of the first call
